@@ -75,3 +75,6 @@ def prepare_v0(case, seed, rows=True):
 def install_v1(case, label='e1'):
     evorig.install_models(case['spec1'])
     evorig.set_evolutions('vapp', [{'label': label, 'mutations': [sigs.real_mutation(m) for m in case['muts']]}])
+    # pending evolutions of further apps of the case (app label -> mutations)
+    for app, muts in (case.get('extra_evolutions') or {}).items():
+        evorig.set_evolutions(app, [{'label': label, 'mutations': [sigs.real_mutation(m) for m in muts]}])
